@@ -136,6 +136,7 @@ fn sugg(a: &[Sx]) -> String {
                     ContextKind::InvalidArg => "iarg",
                     ContextKind::InvalidSubcommand => "isub",
                     ContextKind::InvalidValue => "ival",
+                    ContextKind::Usage => "usage",
                     _ => continue,
                 };
                 parts.push(format!("({} {})", tag, hexes(&strs(v))));
